@@ -1,13 +1,21 @@
 -------------------------------- MODULE JTXT --------------------------------
 (* Judge clauses for C16 (print then parse is the identity).                     *)
-EXTENDS Util, FA, Regex
+EXTENDS Util, FA, Regex, PDA, TM
+PR == INSTANCE Printer
 
 BadX(name, cond) == IF cond THEN {name} ELSE {}
 
 (* automata and grammars: the parsed object equals the printed one, field by field *)
+ObjOfRt(e) == CASE e.kind \in {"dfa", "nfa"} -> FaOf(e.obj)
+                [] e.kind = "pda" -> PdaOf(e.obj)
+                [] e.kind = "tm" -> TmOf(e.obj)
 JRoundtrip(e) ==
-  IF e.exc # "none" THEN {"raised_" \o e.exc}
-  ELSE BadX("parse_is_identity", e.parsed # e.obj)
+  (IF e.exc # "none" THEN {"raised_" \o e.exc}
+   ELSE BadX("parse_is_identity", e.parsed # e.obj))
+  (* binding: the text the real printer wrote is one of the texts Printer.tla produces for the object *)
+  \cup (IF "plines" \in DOMAIN e
+        THEN BadX("binding_printed_as_model", ~PR!PrintedAsModel(e.kind, ObjOfRt(e), e.plines))
+        ELSE {})
 
 (* regular expressions: same language (exact) and same printed form *)
 JRoundtripRe(e) ==
